@@ -186,7 +186,9 @@ class _ExactLanguageSearch:
             settings=settings,
         )
         parser._settings = Settings()
-        return list(zip(substrings, [i[0]["date_obj"] for i in parsed]))
+        dates = zip(substrings, [i[0]["date_obj"] for i in parsed])
+        # every hit must point at some text of the input
+        return [(substring, date) for substring, date in dates if substring.strip()]
 
 
 class DateSearchWithDetection:
